@@ -31,7 +31,7 @@ PKG_DIRS = {"lorawan": ".", "lorawan_test": ".", "band": "band", "band_test": "b
 
 
 def sh(cmd, cwd, timeout=900):
-    p = subprocess.run(cmd, shell=True, executable="/bin/bash", cwd=cwd, env=ENV, stdout=subprocess.PIPE, stderr=subprocess.STDOUT, text=True, timeout=timeout)
+    p = subprocess.run(cmd, shell=True, executable="/bin/bash", cwd=cwd, env=ENV, stdout=subprocess.PIPE, stderr=subprocess.STDOUT, text=True, errors="replace", timeout=timeout)
     return p.returncode, p.stdout
 
 
@@ -62,7 +62,7 @@ def place_demo(src_dir, repo):
         m = re.search(r"^package\s+(\w+)", txt, re.M)
         pkg = m.group(1) if m else "lorawan"
         d = PKG_DIRS.get(pkg)
-        hint = re.search(r"(?:place|put|copy)[^\n]*?((?:applayer|backend|band|gps|airtime)[\w/]*)", open(os.path.join(src_dir, "README.md")).read(), re.I) if os.path.isfile(os.path.join(src_dir, "README.md")) else None
+        hint = re.search(r"(?:place|put|copy)[^\n]*?((?:applayer|backend|band|gps|airtime)[\w/]*)", open(os.path.join(src_dir, "README.md"), errors="replace").read(), re.I) if os.path.isfile(os.path.join(src_dir, "README.md")) else None
         if d is None and hint:
             d = hint.group(1).rstrip("/")
         if d is None:
@@ -92,7 +92,7 @@ def run_checks(repo, props, tier):
     res = {}
     for pid in props:
         e = dict(ENV, VERIF_REPO=repo)
-        p = subprocess.run([os.path.join(ROOT, "check"), "run", pid, tier], cwd=ROOT, env=e, stdout=subprocess.PIPE, stderr=subprocess.STDOUT, text=True)
+        p = subprocess.run([os.path.join(ROOT, "check"), "run", pid, tier], cwd=ROOT, env=e, stdout=subprocess.PIPE, stderr=subprocess.STDOUT, text=True, errors="replace")
         lines = [l for l in p.stdout.splitlines() if l.strip()]
         first = next((l.strip() for l in lines if l.startswith("  [")), "")
         res[pid] = {"exit": p.returncode, "verdict": {0: "missed", 1: "caught", 2: "inconclusive"}.get(p.returncode, "inconclusive"), "first_violation": first[:400]}
@@ -147,7 +147,7 @@ def validate(prop, src, sid, props, tier):
         readme = os.path.join(src, "README.md")
         meta["needs"] = ""
         if os.path.isfile(readme):
-            txt = open(readme).read()
+            txt = open(readme, errors="replace").read()
             meta["needs"] = txt[:1800]
         dst = os.path.join(SEEDED, sid)
         shutil.rmtree(dst, ignore_errors=True)
@@ -224,7 +224,7 @@ def one_line(sid):
     rp = os.path.join(SEEDED, sid, "README.md")
     if not os.path.isfile(rp):
         return ""
-    lines = [l.strip() for l in open(rp).read().splitlines()]
+    lines = [l.strip() for l in open(rp, errors="replace").read().splitlines()]
     # prefer the change description: first bullet / sentence that is not a heading
     for l in lines:
         if l and not l.startswith("#") and not l.startswith("```") and len(l) > 25:
